@@ -145,6 +145,37 @@ public:
     }
 };
 
+// libFuzzer back end: structure-aware decode of the fuzzer's bytes. Each choice consumes 1, 2 or 4 bytes depending on
+// the width of its range (so that the fuzzer's byte mutations map to single choices); exhausted input yields lo.
+class FuzzDraw : public Draw
+{
+    const uint8_t* p;
+    size_t left;
+
+public:
+    FuzzDraw(const uint8_t* data, size_t size) :
+        p(data), left(size) {}
+    long raw(long lo, long hi, bool) override
+    {
+        if (hi <= lo)
+            return lo;
+        uint64_t span = (uint64_t)(hi - lo) + 1;
+        size_t nb = span <= 256 ? 1 : (span <= 65536 ? 2 : 4);
+        uint64_t v = 0;
+        for (size_t i = 0; i < nb; i++)
+        {
+            uint64_t b = left ? *p : 0;
+            if (left)
+            {
+                p++;
+                left--;
+            }
+            v |= b << (8 * i);
+        }
+        return lo + (long) (v % span);
+    }
+};
+
 // Deterministic xorshift-based back end: used by exhaustive/strided enumerations
 // that still want a logged recipe, and by harness self-tests. Seeded explicitly.
 class PrngDraw : public Draw
